@@ -25,6 +25,15 @@ Theorem C17_one_sample_per_element : forall (A : Arith) (c : @chain A) load ops 
   let n := S (length (c_elems c)) in
   length (s_pos s) = n /\ length (s_spd s) = n /\ length (s_acc s) = n /\ length (s_dtq s) = n /\ length (s_ltq s) = n /\ length (s_tq s) = n.
 Proof. exact (@reachable_lengths). Qed.
+(** the last sample equals the element's current attribute: after any reachable sequence of operations, the live position, speed,
+    acceleration, motor torque and current are those of the last recorded snapshot (the duty cycle apart, which the user may assign
+    between runs) *)
+Theorem C17_last_sample_is_current : forall (A : Arith) (c : @chain A) load ops p w st t s h,
+  exec c load ops (initial p w) = Ok st -> y_hist st = (t, s) :: h ->
+  exists v1, live_of s = Ok v1 /\
+    v_pos_last v1 = v_pos_last (y_live st) /\ v_spd_last v1 = v_spd_last (y_live st) /\ v_acc_last v1 = v_acc_last (y_live st) /\
+    v_tq0 v1 = v_tq0 (y_live st) /\ v_cur v1 = v_cur (y_live st).
+Proof. exact (@reachable_last_sample). Qed.
 (** the optional keys: appended = advertised everywhere but in the D13 cell *)
 Theorem C17_keys_partial : forall c : kcfg, d13_cell c = false -> appended c = advertised c.
 Proof. exact keys_agree. Qed.
